@@ -1223,3 +1223,53 @@ macro_rules! rg_lower_get_harness {
     };
 }
 rg_lower_get_harness!(rg_lower_get_o0_h1: (0, 1), rg_lower_get_o3_h2: (3, 2), rg_lower_get_o7_h0: (7, 0), rg_lower_get_o8_h3: (8, 3));
+
+// ---------------------------------------------------------------------------------------------
+// Lower::new: carves the two arrays out of the caller's buffer and runs exactly the initialisation the
+// mode names (C05: recovery happens HERE, before the upper level derives its counters from it).
+// The initialisation functions are replaced by recording stubs; their own contracts are c06_* / c05_recover_*.
+// ---------------------------------------------------------------------------------------------
+static mut INIT_CALLED: [bool; 3] = [false; 3];
+impl<'a> Lower<'a> {
+    fn free_all_rec(&self) {
+        unsafe { INIT_CALLED[0] = true };
+    }
+    fn reserve_all_rec(&self) {
+        unsafe { INIT_CALLED[1] = true };
+    }
+    fn recover_rec(&self) {
+        unsafe { INIT_CALLED[2] = true };
+    }
+}
+#[repr(align(64))]
+struct LowerBuf([u8; 512]);
+#[kani::proof]
+#[kani::unwind(4)]
+#[kani::stub(crate::lower::Lower::free_all, crate::lower::Lower::free_all_rec)]
+#[kani::stub(crate::lower::Lower::reserve_all, crate::lower::Lower::reserve_all_rec)]
+#[kani::stub(crate::lower::Lower::recover, crate::lower::Lower::recover_rec)]
+fn l1b_lower_new_dispatch() {
+    let frames: usize = 600; // two bitfields, one table
+    let mut buf = LowerBuf([0; 512]);
+    let base = buf.0.as_ptr() as usize;
+    let k: u8 = kani::any();
+    kani::assume(k < 4);
+    let init = match k {
+        0 => Init::FreeAll,
+        1 => Init::AllocAll,
+        2 => Init::Recover,
+        _ => Init::None,
+    };
+    let len: usize = kani::any();
+    kani::assume(len <= 512);
+    unsafe { INIT_CALLED = [false; 3] };
+    let r = Lower::new(frames, init, &mut buf.0[..len]);
+    let need = Lower::metadata_size(frames);
+    clause!(r.is_ok() == (len >= need), "C08: Lower::new rejects exactly the buffers that are too small");
+    if let Ok(l) = r {
+        let called = unsafe { INIT_CALLED };
+        clause!(called[0] == (k == 0) && called[1] == (k == 1) && called[2] == (k == 2), "C05/C06: Lower::new runs exactly the initialisation its mode names (recovery happens here)");
+        clause!(l.frames() == frames && l.bitfields.len() == 2 && l.children.len() == 1, "C18: Lower::new carves ceil(frames/512) bitfields and ceil(frames/TREE_FRAMES) tables");
+        clause!(l.bitfields.as_ptr() as usize == base && l.children.as_ptr() as usize == base + 2 * core::mem::size_of::<Align<Bitfield>>(), "C18: the arrays lie inside the buffer, the tables behind the bitfields");
+    }
+}
